@@ -26,7 +26,7 @@ class Runner:
         for s in stmts:
             if not curs:
                 break
-            if len(curs) > 1 and (isinstance(s, (ast.While, ast.For, ast.Try)) or len(curs) > self.MAX_PATHS or self.has_comprehension(s)):
+            if len(curs) > 1 and (isinstance(s, (ast.While, ast.For, ast.Try)) or len(curs) > getattr(self.ex.c, 'max_paths', self.MAX_PATHS) or self.has_comprehension(s)):
                 curs = [self.join_states(None, curs)]
             nxt = []
             for cur in curs:
@@ -684,7 +684,7 @@ class Runner:
                 isl = z3.And(is_r(seqv.t), z3.Or(typ(rv(seqv.t)) == 1, typ(rv(seqv.t)) == 3))
                 isd = z3.And(is_r(seqv.t), z3.Or(typ(rv(seqv.t)) == 2, typ(rv(seqv.t)) == 4))
                 ex.raise_if(st, z3.Not(z3.Or(isl, isd)), 'TypeError', 'safe/iter-type', it)
-                q = z3.If(isl, z3.Select(ex.harr(st, '$seq'), rv(seqv.t)), z3.Select(ex.harr(st, '$dkeys'), rv(seqv.t)))
+                q = z3.If(isl, ex.seq_of(st, seqv.t), z3.Select(ex.harr(st, '$dkeys'), rv(seqv.t)))
             else:
                 raise OutOfSubset('for over %s' % seqv.ty)
             q0 = z3.Const(fresh_name('iter'), SeqV)
